@@ -304,3 +304,7 @@ Proof.
     cbn [scheme userInfo hostText ip4 ip6 ipFuture portText pathSegs query fragment absolutePath owner is_some]. reflexivity.
   - destruct u as [sc ui ht i4 i6 fu po ps qu fr ab ow]. unfold canon_host. destruct i6; reflexivity.
 Qed.
+
+(* unless the host is an IPv6 literal the output is the input, character for character *)
+Corollary parse_to_text_exact s u : parse s = POk u -> ip6 u = None -> to_text u = s.
+Proof. intros H E6. rewrite (parse_to_text_full s u H). exact (canon_ip6_id s u H E6). Qed.
